@@ -127,7 +127,8 @@ func (a *AvahiProvider) start(autoReconnect bool, cb api.MdnsResolveCB) bool {
 
 	if !a.listenerRunning {
 		a.listenerRunning = true
-		go a.chanListener(cb)
+		// hand the channels over, Shutdown replaces them under the mutex
+		go a.chanListener(cb, a.shutdownChan, a.addServiceChan, a.removeServiceChan)
 	}
 
 	return true
@@ -292,16 +293,16 @@ func (a *AvahiProvider) attemptReconnect(cb api.MdnsResolveCB) {
 }
 
 // listen to service changes and shutdown
-func (a *AvahiProvider) chanListener(cb api.MdnsResolveCB) {
+func (a *AvahiProvider) chanListener(cb api.MdnsResolveCB, shutdownChan chan struct{}, addServiceChan, removeServiceChan chan avahi.Service) {
 	for {
 		select {
-		case <-a.shutdownChan:
+		case <-shutdownChan:
 			return
-		case service := <-a.addServiceChan:
+		case service := <-addServiceChan:
 			if err := a.processService(service, false, cb); err != nil {
 				logging.Log().Debug("mdns: avahi -", err)
 			}
-		case service := <-a.removeServiceChan:
+		case service := <-removeServiceChan:
 			if err := a.processService(service, true, cb); err != nil {
 				logging.Log().Debug("mdns: avahi -", err)
 			}
